@@ -98,9 +98,36 @@ pub trait DID:
   }
 }
 
+/// Guards the calls of the DID Url parser, which does not look at the character that follows a percent-encoded octet:
+/// behind an octet that ends the method-specific id it runs past the end of the input, and the accessors of the parsed
+/// value then panic with an out-of-bounds slice (e.g. for `did:example:abc%20`); a delimiter (`/`, `?`, `#`) directly
+/// behind an octet is swallowed into the preceding component. Such input is refused here.
+pub(crate) fn check_percent_encoded_octets(input: &str) -> Result<(), Error> {
+  // (the parser ignores control characters and spaces at both ends of its input)
+  let input: &[u8] = input
+    .trim_matches(|ch: char| ch.is_ascii_control() || ch.is_ascii_whitespace())
+    .as_bytes();
+  let method_id_end: usize = input
+    .iter()
+    .position(|byte| matches!(byte, b'/' | b'?' | b'#'))
+    .unwrap_or(input.len());
+  for (index, _) in input.iter().enumerate().filter(|(_, byte)| **byte == b'%') {
+    match input.get(index + 3) {
+      None if index + 3 == input.len() && index < method_id_end => return Err(Error::InvalidMethodId),
+      Some(b'/' | b'?' | b'#') => {
+        return Err(Error::Other(
+          "a delimiter directly behind a percent-encoded octet is not supported",
+        ))
+      }
+      _ => {}
+    }
+  }
+  Ok(())
+}
+
 #[derive(Clone, PartialEq, Eq, PartialOrd, Ord, Hash, serde::Deserialize, serde::Serialize)]
 #[repr(transparent)]
-#[serde(into = "BaseDIDUrl", try_from = "BaseDIDUrl")]
+#[serde(into = "String", try_from = "String")]
 /// A wrapper around [`BaseDIDUrl`](BaseDIDUrl).
 pub struct CoreDID(BaseDIDUrl);
 
@@ -111,6 +138,7 @@ impl CoreDID {
   ///
   /// Returns `Err` if the input is not a valid [`DID`].
   pub fn parse(input: impl AsRef<str>) -> Result<Self, Error> {
+    check_percent_encoded_octets(input.as_ref())?;
     BaseDIDUrl::parse(input).map(Self).map_err(Error::from)
   }
 
